@@ -148,6 +148,27 @@ func c02check(w *mon.W, pols []c02pol, env *model.Env, form string) {
 		w.Violation("harness:document-rejected", "NewPolicySetFromBytes rejects the document: "+err.Error(), map[string]any{"doc": doc})
 		return
 	}
+	// the same document through the streaming decoder: all policies are decoded FIRST and
+	// authorised afterwards (state shared between successive Decode calls would show here)
+	streamed := cedar.NewPolicySet()
+	{
+		dec := cedar.NewDecoder(strings.NewReader(doc))
+		k := 0
+		for {
+			var p cedar.Policy
+			if err := dec.Decode(&p); err != nil {
+				break
+			}
+			p.SetFilename("doc.cedar")
+			q := p
+			streamed.Add(cedar.PolicyID(fmt.Sprintf("policy%d", k)), &q)
+			k++
+		}
+		if k != len(pols) {
+			w.Violation("Decoder yields a different number of policies", fmt.Sprintf("document with %d policies decoded into %d", len(pols), k), map[string]any{"doc": doc})
+			return
+		}
+	}
 	type run struct {
 		name string
 		f    func() (cedar.Decision, cedar.Diagnostic)
@@ -157,6 +178,7 @@ func c02check(w *mon.W, pols []c02pol, env *model.Env, form string) {
 		{"PolicySet.IsAuthorized", func() (cedar.Decision, cedar.Diagnostic) { return pset.IsAuthorized(ents, req) }},
 		{"Authorize(NewPolicySetFromBytes)", func() (cedar.Decision, cedar.Diagnostic) { return cedar.Authorize(fromBytes, ents, req) }},
 		{"Authorize(PolicyMap)", func() (cedar.Decision, cedar.Diagnostic) { return cedar.Authorize(pmap, ents, req) }},
+		{"Authorize(policies from Decoder)", func() (cedar.Decision, cedar.Diagnostic) { return cedar.Authorize(streamed, ents, req) }},
 		{"Authorize(slice iterator)", func() (cedar.Decision, cedar.Diagnostic) {
 			return cedar.Authorize(sliceIter{ids: cids, ps: list}, ents, req)
 		}},
